@@ -1,0 +1,37 @@
+//go:build verif
+
+// Contracts for package main (cmd/console), read by /verif/govc (contract-based deductive verification).
+// This file contains comments only and is compiled only under the build tag "verif".
+package main
+
+// ---- statement splitting on Enter (C20) ----
+// "The typed buffer": uninterpreted functions standing for an arbitrary input line. clQ(i) is the quote state in front of
+// position i (0 outside quotes, otherwise the quote character that opened the literal), clCnt(i) the number of statement
+// terminators (semicolons outside quotes) in front of position i.
+//@ spec abstract clLen() int
+//@ spec abstract clRune(i int) rune
+//@ spec abstract clQ(i int) rune
+//@ spec abstract clCnt(i int) int
+//@ axiom clQ0: clQ(0) == 0 && clCnt(0) == 0
+//@ axiom clQS: forall i int :: 0 <= i ==> clQ(i+1) == (clQ(i) == 0 ? ((clRune(i) == 39 || clRune(i) == 34) ? clRune(i) : 0) : (clRune(i) == clQ(i) ? 0 : clQ(i)))
+//@ spec pred isTerm(i int) { clRune(i) == 59 && clQ(i) == 0 }
+//@ axiom clCntS: forall i int :: 0 <= i ==> clCnt(i+1) == clCnt(i) + (isTerm(i) ? 1 : 0)
+//@ spec pred lineIs(t *Terminal) { len(t.line) == clLen() && (forall i int :: 0 <= i && i < clLen() ==> t.line[i] == clRune(i)) }
+
+//@ spec pred bufIs(l []rune) { len(l) == clLen() && (forall i int :: 0 <= i && i < clLen() ==> l[i] == clRune(i)) }
+
+//@ func (t *Terminal) moveCursorToPos(pos int)
+//@   props C20
+//@   trusted
+//@   modifies t.cursorX, t.cursorY, t.maxLine, t.outBuf, elems(t.outBuf)
+//@ func (t *Terminal) queue(data []rune)
+//@   props C20
+//@   trusted
+//@   modifies t.outBuf, elems(t.outBuf)
+
+//@ func (t *Terminal) handleKey(key rune) (line []string, ok bool)
+//@   props C20
+//@   partial
+//@   requires t != nil
+//@   ensures[count; C20] key == 13 && ok && old(bufIs(t.line)) ==> len(line) == clCnt(clLen())
+//@   loop 1 invariant[count; C20] key == 13 && old(bufIs(t.line)) ==> 0 <= cur && cur <= clLen() && len(line) == clCnt(cur) && bufIs(t.line)
